@@ -274,6 +274,61 @@ impl Check for C02 {
                 }
             });
         }
+        // rectangles and images under transforms that put the corners of the rectangle on whole
+        // pixels (where a shortcut for pixel-aligned rectangles could be taken) without keeping
+        // it a rectangle: shears, a rotation combined with a scale; and flips / quarter turns
+        {
+            let (w, h) = (9, 6);
+            let txs: Vec<Xf> = vec![
+                [1., 0., 1., 1., 0., 0.],
+                [1., 0., -1., 1., 4., 0.],
+                [1., 0.5, 0., 1., 0., 0.],
+                [1., 1., -1., 1., 4., 0.],
+                [2., 0., 1., 1., 0., 1.],
+                [-1., 0., 0., 1., 8., 0.],
+                [0., 1., -1., 0., 6., 0.],
+                [1., 0., 0., 1., 2., 1.],
+                [2., 0., 0., 3., 1., 0.],
+            ];
+            let img = image_of(2, 2, &VALS12, 3);
+            let srcs3 = [SrcSpec::Solid(0xff204080), SrcSpec::Solid(0x80002040), SrcSpec::Linear { stops: ramp(), spread: Spr::Pad, p: [0., 0., 4., 3.] }, SrcSpec::Image { w: 2, h: 2, data: img.clone(), repeat: true, bilinear: false, xf: IDENT }];
+            let modes3 = [BlendMode::SrcOver, BlendMode::Src, BlendMode::Clear, BlendMode::DstIn, BlendMode::Xor];
+            run.bound("pixel-aligned corners under non-rectangular transforms", format!("{} transforms (4 shears, rotation x scale, flip, quarter turn, integer translation, integer scale) x (5 integer fill_rect x {} sources + draw_image_at x 3 + draw_image_with_size_at x 2) x {} modes x 2 alphas x 2 contexts (none, layer) x 2 destinations on {}x{}", txs.len(), srcs3.len(), modes3.len(), w, h));
+            run.par(txs.len() * modes3.len(), |i, l| {
+                let xf = txs[i / modes3.len()];
+                let mode = modes3[i % modes3.len()];
+                for alpha in [1.0f32, 0.5] {
+                    let o = Opts { mode, alpha, aa: true };
+                    let mut calls: Vec<Op> = Vec::new();
+                    for (x, y, rw, rh) in [(0., 0., 4., 4.), (0., 0., 2., 2.), (1., 0., 2., 2.), (2., 2., 2., 1.), (0., 0., 4., 2.)] {
+                        for s in &srcs3 {
+                            calls.push(Op::FillRect(x, y, rw, rh, s.clone(), o));
+                        }
+                    }
+                    for (x, y) in [(0., 0.), (2., 0.), (0., 2.)] {
+                        calls.push(Op::DrawImageAt(x, y, 2, 2, img.clone(), o));
+                    }
+                    calls.push(Op::DrawImageSize(4., 2., 0., 0., 2, 2, img.clone(), o));
+                    calls.push(Op::DrawImageSize(2., 4., 2., 0., 2, 2, img.clone(), o));
+                    for call in calls {
+                        for layer in [false, true] {
+                            for dst in [Dst::White, Dst::Distinct] {
+                                let mut ops = Vec::new();
+                                if layer {
+                                    ops.push(Op::PushLayer(0.75, BlendMode::SrcOver));
+                                }
+                                ops.push(Op::SetTransform(xf));
+                                ops.push(call.clone());
+                                if layer {
+                                    ops.push(Op::PopLayer);
+                                }
+                                run_one(run, 40_000 + i, l, &Scene { w, h, dst, ops });
+                            }
+                        }
+                    }
+                }
+            });
+        }
         // long strips (spans and masks beyond 256 / 1024 / 2048 / 8192 pixels)
         let hmodes = [BlendMode::SrcOver, BlendMode::Src, BlendMode::Clear, BlendMode::DstIn];
         run.bound("wide-tall", format!("the long-strip scenes shared with C03 (300x2, 2x300, 8200x2, 2x8200; far-end draws, full-length sliver fill, full-length mask) x {} modes", hmodes.len()));
